@@ -1,0 +1,10 @@
+//go:build verif
+// +build verif
+
+package space
+
+// The three kernel implementations, bypassing CPU dispatch (verification only).
+
+func VerifNativeImpl() SpaceImpl { return nativeSpaceImpl{} }
+func VerifAvxImpl() SpaceImpl    { return avxSpaceImpl{} }
+func VerifSseImpl() SpaceImpl    { return sseSpaceImpl{} }
